@@ -7,6 +7,7 @@ use std::sync::Arc;
 use vstd::std_specs::cmp::*;
 verus! {
 //@ include prelude/numeric_id.vs
+//@ include prelude/std_extra.vs
 //@ idtype Value TableId CounterId ExternalFunctionId FunctionId
 //@ include prelude/bridge_exec.vs
 broadcast use {nid::ax_id_eq, nid::ax_id_cmp, nid::ax_id_obeys_eq, nid::ax_id_obeys_cmp, nid::ax_id_obeys_partial_cmp, nid::ax_id_partial_cmp};
